@@ -243,6 +243,10 @@ func c01(c *Ctx) (*report.Result, error) {
 	res.RuleDoc["O1.8"] = "a silent target constrains the acknowledgement: before a task batch is handed to a target shard, the receiver makes sure ackByTarget has an entry for that target (created, only if absent, with the id of the first task handed over, under ackMu) - the upstream ack is the minimum over the entries, so a target without an entry (no ack yet) would not hold it back"
 	if f := resolve(c, res, "O1.8", anchor{"proxy", "*proxyStreamReceiver", "recvReplicationMessages"}); f != nil {
 		checkSilentTargets(c, res, f, "O1.8")
+		res.RuleDoc["O1.13"] = "a routed message is attributed to the shard it was read from: every RoutedMessage built by a receiver carries SourceShard = that receiver's sourceShardID, the intra-proxy receiver hands it to its own target's channel, and the intra-proxy sender forwards an ack to its own source shard - the ring records that attribution and acknowledges exactly that shard"
+		checkShardIDRoles(c, res, "O1.13", func(kind, callee string) bool { return kind == "lit" || callee == "DeliverAckToShardOwner" || callee == "GetRemoteSendChan" })
+		res.RuleDoc["O1.12"] = "a confirmation is filed under the target it came from (same analysis as O3.14): an ack forwarded under another target's shard overwrites that target's lower level in ackByTarget and the minimum rises above what it confirmed"
+		checkRoutedAckTarget(c, res, "O1.12")
 		res.RuleDoc["O1.11"] = "each target stream's sender owns the message it is handed (same analysis as O2.5 / O4.12): a body shared between the targets of a fan-out lets one target's sender inherit another's rewritten watermark, advertise it in keep-alives, and have the target confirm ids it was never sent - which the ring translates into source ids that were not confirmed"
 		checkFreshPerHandover(c, res, "O1.11", f)
 	}
@@ -843,6 +847,8 @@ func c03(c *Ctx) (*report.Result, error) {
 	if g := resolve(c, res, "O3.13", anchor{"proxy", "*proxyStreamSender", "recvAck"}); g != nil {
 		checkRetryLoopBookkeeping(c, res, "O3.13", g, 2)
 	}
+	res.RuleDoc["O3.14"] = "a confirmation is filed under the target it came from: every RoutedAck built by a sender's recvAck (both branches, both sender types) carries TargetShard = that sender's own targetShardID - an ack filed under another shard creates an entry that no real ack updates and pins the aggregated minimum for ever"
+	checkRoutedAckTarget(c, res, "O3.14")
 	checkNoSwallowedErrors(c, res, "O3.8", []string{"proxy/proxy_streams.go"})
 	res.RuleDoc["O3.9"] = "relay loops pass every message on: in every loop that takes messages from a stream or channel and forwards them, no path from the take to the next take avoids every stream Send / channel send / Deliver*ToShardOwner (a forwarding loop that runs zero times, the wrong-kind edges of a type assertion and a return that ends the stream are not bypasses; the ack aggregator sendAck is the reviewed exception)"
 	checkRelayLoops(c, res, "O3.9", []string{"proxy/proxy_streams.go", "proxy/intra_proxy_router.go"}, 5)
